@@ -102,6 +102,9 @@ def run(ctx):
                     t = None
                     for x in conv:
                         t = type_of_conversion(x.gen) or t
+                    if not conv:
+                        count('unclassified:' + cal, False, b, c, 'Result::unwrap at line %d is in no discharged class (not a Locate::try_from(&node))' % c.line)
+                        continue
                     ok = t is not None and (t == 'Locate' or t in has_locate)
                     count('locate-of-node-unwrap', ok, b, c, 'Locate::try_from(&%s).unwrap(): a %s need not contain a token, so the conversion can '
                           'fail and the unwrap panic' % (t, t), {'site': b.name, 'line': c.line, 'node_type': t, 'must_contain_Locate': ok})
@@ -112,6 +115,9 @@ def run(ctx):
                     t = None
                     for x in conv:
                         t = type_of_conversion(x.gen) or t
+                    if not idc:
+                        count('unclassified:' + cal, False, b, c, 'Option::unwrap at line %d is in no discharged class (not the result of identifier(<node>))' % c.line)
+                        continue
                     ok = bool(idc) and t is not None and t in has_ident
                     count('identifier-of-node-unwrap', ok, b, c, 'identifier(<%s>).unwrap(): a %s need not contain an identifier' % (t, t),
                           {'site': b.name, 'line': c.line, 'node_type': t, 'must_contain_identifier': ok})
